@@ -51,7 +51,7 @@ ReadOnlyOps == {"Clone", "CloneSeqBag", "Unalign", "Sample", "SampleSeqBag", "Su
                 "MaxCharStats", "Consensus", "CharStats", "CharStatsSite", "CharStatsSeq", "UniqueCharacters",
                 "Entropy", "NbVariableSites", "InformativeSites", "AvgAllelesPerSite", "Pssm", "CountDifferences",
                 "NumGapsUnique", "NumMutationsUnique", "NumMutRef", "ListMutRef", "CountProfile", "ProfileOnly", "SiteConservation", "AlphabetInfo",
-                "BuildBootstrap", "RandSubAlign", "Rarefy", "DetectAlphabet", "Identical", "Query", "New", "CodonAlign", "LongestORFObj"}
+                "BuildBootstrap", "RandSubAlign", "Rarefy", "DetectAlphabet", "Identical", "Query", "New", "NewFromFasta", "CodonAlign", "LongestORFObj"}
 
 Ret(r) == Res(FALSE, r.o, <<>>, r.ret, TRUE)
 Q(o, ret) == Res(FALSE, o, <<>>, ret, TRUE)            \* a query: receiver unchanged, returns ret
@@ -60,6 +60,12 @@ Q(o, ret) == Res(FALSE, o, <<>>, ret, TRUE)            \* a query: receiver unch
 Step(h, op, recv, a) ==
   LET o == IF recv = 0 THEN EmptyObj("bag", 3, 0) ELSE h[recv] IN
   CASE op = "New" -> Res(FALSE, o, <<FromRows(a.k, a.al, a.pol, a.rows)>>, NoRet, TRUE)
+    \* an alignment read from a FASTA file holding these rows: the rows are added one by one, and a row the alignment
+    \* refuses (a different length) makes the whole reading fail - wherever it stands in the file
+    [] op = "NewFromFasta" ->
+         LET step(acc, r) == IF acc.err THEN acc ELSE AddSeq(acc.o, r.n, r.s)
+             R == FoldLeft(step, Ok(EmptyObj("align", a.al, 0)), a.rows)
+         IN IF R.err \/ Len(a.rows) = 0 THEN Fail(o) ELSE Res(FALSE, o, <<R.o>>, NoRet, TRUE)
     [] op = "Add" -> AddSeq(o, a.name, a.seq)
     [] op = "AddString" -> AddSeq(o, a.name, a.seq)
     [] op = "IgnoreIdentical" -> Ok([o EXCEPT !.pol = NormPol(a.pol)])
@@ -267,7 +273,8 @@ Allowed(h, op, recv, a, post, new, ret) ==
   CASE op = "ShuffleSequences" -> IsRowPermutation(pre, post) /\ new = <<>>
     [] op \in {"Sample", "SampleSeqBag"} -> post = pre /\ Len(new) = 1 /\ AllowedSample(pre, a.nb, new[1])
     [] op = "CleanNames" -> AllowedCleanNames(pre, post, PairSet(ret.map)) /\ new = <<>>
-    [] op = "TrimNames" -> AllowedTrim(pre, post, PairSet(ret.map), a.size) /\ new = <<>>
+    [] op = "TrimNames" -> new = <<>> /\ (IF "prev" \in DOMAIN a THEN AllowedTrimShared(pre, post, PairSet(ret.map), a.size, PairSet(a.prev))
+                                          ELSE AllowedTrim(pre, post, PairSet(ret.map), a.size))
     [] op = "TrimNamesAuto" -> AllowedTrim(pre, post, PairSet(ret.map), -1) /\ new = <<>>
     [] op = "Compress" -> AllowedCompress(pre, post, ret.w) /\ new = <<>>
     [] op = "Mask" -> AllowedMask(pre, post, a.ref, a.start, a.len, a.repl, a.nogap, a.noref) /\ new = <<>>
